@@ -19,8 +19,10 @@ from .findings import Reporter
 _LIB = None
 
 
-def _schedules_for(steps, names, gran_budget, rng, pairs):
-    """Single preemptions: (thread t at local step i -> thread u); optionally pairs."""
+def _schedules_for(steps, names, gran_budget, rng, pairs, hot=None, hot_budget=400):
+    """Single preemptions: (thread t at local step i -> thread u); optionally pairs.  Steps inside code that
+    touches state shared between threads (`hot`) are all tried (evenly thinned above hot_budget); the other
+    steps are sampled within gran_budget."""
     out = []
     for t in names:
         n = steps.get(t, 0)
@@ -32,6 +34,10 @@ def _schedules_for(steps, names, gran_budget, rng, pairs):
             stride = n / float(gran_budget // 2)
             pts = sorted(set([1 + int(i * stride) for i in range(gran_budget // 2)] +
                              [rng.randint(1, n) for _ in range(gran_budget // 2)]))
+            h = sorted(set((hot or {}).get(t, ())))
+            if len(h) > hot_budget:
+                h = [h[int(i * len(h) / float(hot_budget))] for i in range(hot_budget)]
+            pts = sorted(set(pts) | set(h))
         for i in pts:
             for u in names:
                 if u != t:
@@ -66,7 +72,7 @@ def _baseline(args):
     out = []
     for sc_idx, scenario, gran in args:
         ev, steps, dl, fired, errs = thr_exec.run_scenario(labrea, scenario, [], gran)
-        out.append((sc_idx, gran, steps, ev, dl, errs))
+        out.append((sc_idx, gran, steps, ev, dl, errs, getattr(thr_exec.run_scenario, "last_hot", {})))
     return out
 
 
@@ -173,7 +179,7 @@ def main(tier):
         tasks = []
         nsched = 0
         budget_op, budget_line = (300, 120) if quick else (3000, 1200)
-        for sc_idx, gran, steps, ev, dl, errs in base:
+        for sc_idx, gran, steps, ev, dl, errs, hot in base:
             scn = lib[sc_idx]
             names = sorted(scn["threads"])
             if dl or errs:
@@ -185,7 +191,8 @@ def main(tier):
                 budget = 60
             else:
                 budget = budget_op if gran == "opcode" else budget_line
-            scheds = _schedules_for(steps, names, budget, rng, pairs=0 if quick else 400)
+            scheds = _schedules_for(steps, names, budget, rng, pairs=0 if quick else 400, hot=hot,
+                                    hot_budget=250 if quick else 4000)
             nsched += len(scheds)
             for k in range(0, len(scheds), 50):
                 tasks.append((sc_idx, scn, gran, scheds[k:k + 50]))
